@@ -760,3 +760,85 @@ def r11(R):
                     'CorruptedDataError' % (f.name, recv),
                     key='index saved from another open than the position')
     R.require(n >= 2, 'repozo no longer saves an index with its backups')
+
+
+# ------------------------------------------------------------------ C18.R12
+@rule('C18.R12', 'the backups "not later than the date" are chosen by the '
+      'time stamp of each file -- its name WITHOUT the extension -- so that '
+      'a backup stamped exactly at the date is included', min_instances=1)
+def r12(R):
+    f = R.prog.func(REPOZO + '.find_files')
+    n = 0
+    for loop in walk_local(f.node):
+        if not isinstance(loop, ast.For) or not isinstance(
+                loop.target, ast.Name):
+            continue
+        var = loop.target.id
+        for c in ast.walk(loop):
+            if not (isinstance(c, ast.Compare) and len(c.ops) == 1 and
+                    isinstance(c.ops[0], (ast.LtE, ast.Lt, ast.GtE, ast.Gt))):
+                continue
+            sides = [c.left, c.comparators[0]]
+            if not any(isinstance(s_, ast.Name) and s_.id == 'when' or
+                       dotted(s_) == ('options', 'date') for s_ in sides):
+                continue
+            n += 1
+            R.instance('find_files: %s' % ast.unparse(c))
+            for s_ in sides:
+                if isinstance(s_, ast.Name) and s_.id == var:
+                    R.violation(
+                        (f.module.relpath, f.qualname,
+                         ' '.join(ast.unparse(c).split()), c.lineno),
+                        'find_files compares the whole file name `%s` -- '
+                        'time stamp plus extension -- with the date: '
+                        '"T.deltafsz" <= "T" is false, a backup stamped '
+                        'exactly at the date given with -D is taken for a '
+                        'later one; recovery silently produces the '
+                        'previous backup\'s state (or finds no files)' %
+                        var, key='file name with extension compared with '
+                                 'the date')
+    R.require(n >= 1, 'find_files no longer compares file names with the '
+              'date')
+
+
+# ------------------------------------------------------------------ C18.R13
+@rule('C18.R13', 'recovery with verification writes exactly the files '
+      'recovery without it writes: the chain find_files selected for the '
+      'date -- the .dat file of the full backup lists more (every later '
+      'increment) and is only looked things up in', min_instances=1)
+def r13(R):
+    f = R.prog.func(REPOZO + '.do_recover')
+    # the selected chain, by role: what find_files returned
+    chain = {t.id for a in walk_local(f.node) if isinstance(a, ast.Assign)
+             and isinstance(a.value, ast.Call) and dotted(a.value.func) and
+             dotted(a.value.func)[-1] == 'find_files'
+             for t in a.targets if isinstance(t, ast.Name)}
+    R.require(chain, 'do_recover no longer asks find_files')
+    n = 0
+    for loop in walk_local(f.node):
+        if not isinstance(loop, ast.For):
+            continue
+        writes = [c for s_ in loop.body for c in ast.walk(s_)
+                  if isinstance(c, ast.Call) and dotted(c.func) and
+                  dotted(c.func)[-1] in ('concat', 'copyfile')]
+        if not writes:
+            continue
+        n += 1
+        R.instance('do_recover: for %s in %s' % (
+            ast.unparse(loop.target), ast.unparse(loop.iter)[:40]))
+        names = {x.id for x in ast.walk(loop.iter) if isinstance(x, ast.Name)}
+        if not (names & chain):
+            R.violation(
+                (f.module.relpath, f.qualname,
+                 'for %s in %s' % (ast.unparse(loop.target),
+                                   ' '.join(ast.unparse(loop.iter).split())),
+                 loop.lineno),
+                'do_recover writes the output from a loop over `%s`, not '
+                'over the files find_files selected for the date: with -w '
+                'and -D together every increment listed in the .dat file '
+                'is written -- the state recovered is a later one than '
+                'asked for, next to the index of the right one' %
+                ' '.join(ast.unparse(loop.iter).split())[:50],
+                key='recovered output not written from the selected chain')
+    R.require(n >= 1, 'do_recover no longer writes its output in a loop '
+              'over files (the verifying branch)')
